@@ -820,8 +820,42 @@ def ptr_rules(F, R, nm, d, m, cs):
         okt = len(rt) == 1 and re.match(
             r"^mem::offset_slice_ptr_start\(<.* as FlatUnsized>::ptr_to_bytes\(core::ptr::slice_from_raw_parts_mut\(core::ptr::mut_ptr::<impl \*mut T>::offset\(\$this, \(%d as isize\)\), core::ptr::non_null::NonNull::<\[T\]>::len\(core::ptr::non_null::NonNull::<T>::new_unchecked\(\$this\)\)\)\), Neg\(\(%d as isize\)\)\)$" % (lfo, lfo),
             rt[0]) is not None
+        rounded = False
+        if not okt and len(rt) == 1:
+            # repaired form: the same pointer with its length rounded up to the struct's ALIGN
+            m2 = re.match(r"^mem::set_slice_ptr_len\((.*), utils::ceil_mul\(mem::slice_ptr_len\((.*)\), %d\)\)$" % a, rt[0])
+            if m2 and m2.group(1) == m2.group(2):
+                inner = m2.group(1)
+                okt = re.match(
+                    r"^mem::offset_slice_ptr_start\(<.* as FlatUnsized>::ptr_to_bytes\(core::ptr::slice_from_raw_parts_mut\(core::ptr::mut_ptr::<impl \*mut T>::offset\(\$this, \(%d as isize\)\), core::ptr::non_null::NonNull::<\[T\]>::len\(core::ptr::non_null::NonNull::<T>::new_unchecked\(\$this\)\)\)\), Neg\(\(%d as isize\)\)\)$" % (lfo, lfo),
+                    inner) is not None
+                rounded = okt
         R.ob("F1.struct-bytes", nm + "::ptr_to_bytes", "delegation", okt,
-             "%s: the struct's bytes are the last field's bytes extended back by LAST_FIELD_OFFSET%s" % (nm, "" if okt else " -- found %s" % rt), where=pt["span"])
+             "%s: the struct's bytes are the last field's bytes extended back by LAST_FIELD_OFFSET%s%s" % (
+                 nm, " and rounded up to ALIGN" if rounded else "", "" if okt else " -- found %s" % rt), where=pt["span"])
+        # own-bytes round trip, evaluated on the recognised formulas with this type's constants: re-mapping as_bytes() of a view
+        # gives the same capacity of a trailing FlatVec / FlatString (C02 "its own bytes validate again", C05, C11, C18)
+        last = d["fields"][-1]
+        if okt and okf and last["kind"] in ("vec", "string") and last.get("elem_size") and last.get("data_offset") is not None:
+            sz = last["elem_size"]
+            av, offv = last["align"], last["data_offset"]
+            ms = cs.get("MIN_SIZE")
+            bad = []
+            n = ms
+            while n <= ms + 24 * a:
+                room = n - lfo
+                cap = ((room - offv) // av * av) // sz
+                to = lfo + -(-(offv + cap * sz) // av) * av
+                if rounded:
+                    to = -(-to // a) * a
+                n2 = to // a * a
+                cap2 = ((n2 - lfo - offv) // av * av) // sz if n2 - lfo >= offv else -1
+                if cap2 != cap or to > n:
+                    bad.append((n, cap, to, cap2))
+                n += a
+            R.ob("F1.own-bytes-roundtrip", nm, "struct-tail-capacity", not bad,
+                 "%s: as_bytes() of a mapped value re-maps to the same capacity of its trailing %s for every reachable length%s" % (
+                     nm, last["fty"], "" if not bad else " -- (len, capacity, as_bytes().len(), capacity after re-mapping) e.g. %s" % (bad[:3],)), where=pt["span"])
         # in-bounds lemma for struct views needs len floored to ALIGN when ALIGN > last field's granule
         R.ob("F1.struct-view-floor", nm + "::ptr_from_bytes", "granule", okf and "utils::floor_mul(mem::slice_ptr_len($__flatty_bytes), %d)" % a in rf[0],
              "%s: the slice length is floored to the struct's ALIGN (%s) before delegating to the last field, so size_of_val(view) <= len" % (nm, a),
